@@ -9,6 +9,7 @@
 From Coq Require Import List Arith ZArith Bool PeanoNat.
 Import ListNotations.
 Require Import Verif.Egg.Model Verif.Egg.CCDefs Verif.ProofChk.Checker Verif.ProofChk.Sound.
+Require Import Verif.gen.ProofChkFacts Verif.ProofChk.Dispatch.
 
 (** Soundness, for EVERY program and EVERY proof object: what the checker accepts is derivable
     from the un-instrumented program (its top-level actions, instances of its rules whose premises
@@ -141,10 +142,46 @@ Theorem c12_mutation_rejected_subst_congr : forall g prog l r l' r' p i c phi,
 Proof. exact mutation_rejected_subst_congr. Qed.
 Print Assumptions c12_mutation_rejected_subst_congr.
 
+(** Tier A: the dispatch table of the in-tree checker, regenerated from
+    src/proofs/proof_checker.rs / proof_format.rs on every run (gen/ProofChkFacts.v).
+    [check_tbl] runs, for a node of kind K, exactly the conditions the Rust arm of K lists (one per
+    ProofCheckErrorKind / helper call, in source order; an unknown name fails) and demands the
+    arm's number of recursive calls; it IS the hand-written checker, for all inputs. *)
+Theorem c12_dispatch_table_drives_checker : forall g prog p, check_tbl g prog p = check g prog p.
+Proof. exact check_tbl_eq. Qed.
+Print Assumptions c12_dispatch_table_drives_checker.
+
+Theorem c12_tbl_accepted_iff_derivable : forall prog g, ctx_new prog = Some g ->
+  forall a b, (exists p, check_proof_tbl prog p = Some (a, b)) <-> Derivable prog a b.
+Proof. exact tbl_accepted_iff_derivable. Qed.
+Print Assumptions c12_tbl_accepted_iff_derivable.
+
+(** ... and every extracted feature of the checker's source (proof-node kinds and their fields; per
+    arm of check_proof_with_context / process_actions / check_fact_matches_proposition / the two
+    evaluators: pattern, guard, recursive calls, error kinds, comparisons with both operands, helper
+    calls; the bodies of ProofCheckContext::new, run_merge, check_rule_produces_equality) is the one
+    the model was written against, including the arms that are link-only. *)
+Theorem c12_dispatch_pinned :
+  justification_kinds = model_justification_kinds /\
+  checker_arms = model_checker_arms /\
+  action_arms = model_action_arms /\
+  fact_arms = model_fact_arms /\
+  eval_props_arms = model_eval_props_arms /\
+  eval_term_arms = model_eval_term_arms /\
+  ctx_new_shape = model_ctx_new_shape /\
+  run_merge_shape = model_run_merge_shape /\
+  rule_produces_shape = model_rule_produces_shape.
+Proof. exact dispatch_pinned. Qed.
+Print Assumptions c12_dispatch_pinned.
+
 (** non-vacuity: a proof using a global action, a rule instance, Sym, Trans and Congr is
     accepted; the alterations of the theorems above are rejected on it *)
 Example c12_example_accepted :
   check_proof Example.prog Example.pr = Some (Example.F (Example.F Example.K0), Example.K1).
+Proof. vm_compute. reflexivity. Qed.
+
+Example c12_example_accepted_tbl :
+  check_proof_tbl Example.prog Example.pr = Some (Example.F (Example.F Example.K0), Example.K1).
 Proof. vm_compute. reflexivity. Qed.
 
 Example c12_example_rule_removed : check_proof (remove_rule Example.prog 0) Example.pr = None.
